@@ -9,6 +9,7 @@ import (
 	"net/http"
 	"slices"
 	"strings"
+	"sync"
 
 	"cuelabs.dev/go/oci/ociregistry"
 	"cuelabs.dev/go/oci/ociregistry/ociclient"
@@ -138,6 +139,52 @@ type stack struct {
 	Transports []*simnet.Transport
 	Tracker    *reg.Tracker
 	Desc       string
+	// Uploads notes the upload sessions started on Mem (so that the harness can look
+	// at one in the backend without knowing how any layer above spells upload ids).
+	Uploads *uploadSpy
+}
+
+// uploadSpy sits directly on a backend and notes the id of every upload it starts.
+type uploadSpy struct {
+	ociregistry.Interface
+	mu      sync.Mutex
+	started []startedUpload
+}
+
+type startedUpload struct{ repo, id string }
+
+func (s *uploadSpy) PushBlobChunked(ctx context.Context, repo string, chunkSize int) (ociregistry.BlobWriter, error) {
+	w, err := s.Interface.PushBlobChunked(ctx, repo, chunkSize)
+	if err == nil {
+		s.mu.Lock()
+		s.started = append(s.started, startedUpload{repo, w.ID()})
+		s.mu.Unlock()
+	}
+	return w, err
+}
+
+// count is the number of uploads started so far.
+func (s *uploadSpy) count() int {
+	s.mu.Lock()
+	defer s.mu.Unlock()
+	return len(s.started)
+}
+
+// between returns the ids of the uploads started in repo from the from-th up to (not
+// including) the to-th; to < 0 means all that follow.
+func (s *uploadSpy) between(from, to int, repo string) []string {
+	s.mu.Lock()
+	defer s.mu.Unlock()
+	if to < 0 || to > len(s.started) {
+		to = len(s.started)
+	}
+	var ids []string
+	for _, u := range s.started[from:to] {
+		if u.repo == repo {
+			ids = append(ids, u.id)
+		}
+	}
+	return ids
 }
 
 func newMem(immutable bool) *ocimem.Registry {
@@ -164,7 +211,8 @@ func httpHop(env *core.Env, backend ociregistry.Interface, o *stackOpts, name st
 
 func buildStack(env *core.Env, o *stackOpts) *stack {
 	s := &stack{Mem: newMem(o.Immutable), Desc: o.Kind, Tracker: reg.NewTracker()}
-	var r ociregistry.Interface = s.Mem
+	s.Uploads = &uploadSpy{Interface: s.Mem}
+	var r ociregistry.Interface = s.Uploads
 	for i, part := range strings.Split(o.Kind, "+") {
 		switch part {
 		case "mem":
@@ -177,7 +225,7 @@ func buildStack(env *core.Env, o *stackOpts) *stack {
 			if part == "unifyc" {
 				pol = ociunify.ReadConcurrent
 			}
-			r = ociunify.New(s.Mem, s.Mem1, &ociunify.Options{ReadPolicy: pol})
+			r = ociunify.New(s.Uploads, s.Mem1, &ociunify.Options{ReadPolicy: pol})
 		case "rec":
 			r = reg.Wrap(r, s.Tracker, o.Backend)
 		case "http1":
